@@ -12,7 +12,8 @@ Ltac Zify.zify_post_hook ::= Z.div_mod_to_equations.
 Definition c_char (b : Z) : Z := if b <? 128 then b else b - 256.
 
 Theorem c_char_covers_char : forall c, Env.leaf_is_path_delim_dom c -> exists b, 0 <= b < 256 /\ c_char b = c.
-Proof. intros c H. unfold Env.leaf_is_path_delim_dom in H. exists (c mod 256). unfold c_char. split; [lia|]. destruct (c mod 256 <? 128) eqn:E; lia. Qed.
+Proof. intros c H. unfold Env.leaf_is_path_delim_dom in H. exists (c mod 256). unfold c_char. split; [lia|]. destruct (c mod 256 <? 128) eqn:E; lia.
+Qed.
 Print Assumptions c_char_covers_char.
 
 Theorem leaf_is_path_delim_is_model :
